@@ -2,6 +2,7 @@ mod c03;
 mod c05;
 mod c06;
 mod c09;
+mod c11;
 mod c15;
 mod c16;
 mod cbackend;
@@ -71,6 +72,9 @@ fn main() {
         } else {
             String::new()
         };
+        if std::env::var("TX3V_TRACE").is_ok() {
+            eprintln!("panic: {} @ {}", msg, loc);
+        }
         LAST_PANIC.with(|p| *p.borrow_mut() = format!("{} @ {}", msg, loc));
     }));
     let cmd = args[1].as_str();
@@ -116,6 +120,7 @@ fn main() {
         ("run", "C07") => c06::run(&mut ctx, true),
         ("run", "C09") => c09::run(&mut ctx),
         ("run", "C16") => c16::run(&mut ctx),
+        ("run", "C11") => c11::run(&mut ctx),
         ("run", "C02") => cbackend::run(&mut ctx, cbackend::Focus::C02),
         ("run", "C08") => cbackend::run(&mut ctx, cbackend::Focus::C08),
         ("run", "C10") => cbackend::run(&mut ctx, cbackend::Focus::C10),
